@@ -86,4 +86,52 @@ mod verif_kani {
         assert!(back.sbn == sbn && back.esi == esi);
         assert!(back.source_block_length.is_none());
     }
+
+    const AREA: usize = 32;
+
+    // @HARNESS id=C04.raptorq.get_fti_total tier=quick kind=Kb props=C04 bound="LCT header of the 8-byte shape followed by every extension area of 0..=24 bytes" timeout=1500
+    /// get_fti returns Ok or Err (never panics, never overflows) whatever the extension area holds
+    #[cfg(kani)]
+    #[kani::proof]
+    #[kani::unwind(8)]
+    #[kani::stub(alloc::fmt::format, stub_format)]
+    #[kani::stub(crate::tools::error::FluteError::new, stub_flute_error_new)]
+    fn get_fti_total() {
+        h_get_fti_total(kani::any(), kani::any());
+    }
+    pub fn h_get_fti_total(buf: [u8; AREA], n: usize) {
+        vk_assume!(n <= AREA);
+        vk_assume!(buf[0] & 0x0C == 0 && buf[1] & 0xF0 == 0);
+        let data = &buf[..n];
+        if let Ok(hdr) = lct::parse_lct_header(data) {
+            let r = AlcRaptorQ {}.get_fti(data, &hdr);
+            if let Ok(Some((oti, l))) = r {
+                assert!(oti.fec_encoding_id as u8 == 6);
+                assert!(l < (1u64 << 48));
+                vk_cover!(l > 0);
+            }
+        }
+    }
+
+    // @HARNESS id=C04.raptorq.payload_id_total tier=quick kind=K props=C04 timeout=900
+    /// the payload-id readers return Ok or Err for every packet whose offsets satisfy what parse_alc_pkt
+    /// guarantees, and for every OTI (which may come from the network or from the FDT)
+    #[cfg(kani)]
+    #[kani::proof]
+    #[kani::unwind(10)]
+    #[kani::stub(alloc::fmt::format, stub_format)]
+    #[kani::stub(crate::tools::error::FluteError::new, stub_flute_error_new)]
+    fn payload_id_total() {
+        h_payload_id_total(kani::any(), kani::any(), kani::any(), kani::any());
+    }
+    pub fn h_payload_id_total(buf: [u8; 16], off: usize, m: u8, g: u8) {
+        let pid_len = AlcRaptorQ {}.fec_payload_id_block_length();
+        vk_assume!(off <= 16 && off + pid_len <= 16);
+        let hdr = lct::LCTHeader { len: off, cci: 0, tsi: 0, toi: 1, cp: 6, close_object: false, close_session: false, header_ext_offset: 8, length: off };
+        let alc = mk_alc(&buf, hdr, pid_len);
+        let oti = Oti { fec_encoding_id: FECEncodingID::ReedSolomonGF2M, fec_instance_id: 0, maximum_source_block_length: 1, encoding_symbol_length: 1,
+                        max_number_of_parity_symbols: 0, scheme_specific: Some(SchemeSpecific::ReedSolomon(ReedSolomonGF2MSchemeSpecific { m, g })), inband_fti: true };
+        let _ = AlcRaptorQ {}.get_fec_payload_id(&alc, &oti);
+        let _ = AlcRaptorQ {}.get_fec_inline_payload_id(&alc);
+    }
 }
